@@ -10,7 +10,9 @@ PROPS = {
         'decided': 'support captured as the dual of exactly the given constraints after a reset; '
                    'every robust constraint lowered with its own or the default set; le_to_rc '
                    'consumes every part of the support (rows, sense, bound code, SOC, exp, LMI); '
-                   'robust equalities split into +/- with the set kept; no earlier set leaks in',
+                   'robust equalities split into +/- with the set kept; no earlier set leaks in; the random '
+                   'coefficients enter the stationarity rows scaled by the support constant of the same rows; '
+                   'a term added to a concave piecewise function carries its sign',
         'not_decided': 'signs and indices of the multiplier rows, i.e. feasibility itself',
     },
     'C03': {
@@ -61,7 +63,8 @@ PROPS = {
         'rules': ['R11', 'R25', 'R37'],
         'decided': 'sign calculus of every convex family class x operator over the whole sign '
                    'domain; comparison guards; bilinear guards; the static/adaptive flag `fixed` of a '
-                   'rebuilt DecAffine depends on self.fixed on every path',
+                   'rebuilt DecAffine depends on self.fixed on every path; a term added to a piecewise function '
+                   'carries self.sign on every definition',
         'not_decided': 'that each atom\'s base function is convex as labelled',
     },
     'C11': {
